@@ -38,11 +38,18 @@ void fw_query_put(struct fw_query *fw_query)
 void fw_query_get(unsigned short query_id, struct fw_query **fw_query)
 {
 	int i;
+	int ix;
 
 	*fw_query = NULL;
+	/* Ids get reused: take the newest entry with this id that is still
+	   waiting for its reply (tunnel_bind() clears addrlen when it has
+	   passed one on; slots never written have addrlen 0 too), not
+	   whoever sits in the lowest slot. */
+	ix = fwq_ix;
 	for (i = 0; i < FW_QUERY_CACHE_SIZE; i++) {
-		if (fwq[i].id == query_id) {
-			*fw_query = &(fwq[i]);
+		ix = (ix == 0) ? FW_QUERY_CACHE_SIZE - 1 : ix - 1;
+		if (fwq[ix].addrlen > 0 && fwq[ix].id == query_id) {
+			*fw_query = &(fwq[ix]);
 			return;
 		}
 	}
